@@ -1754,6 +1754,11 @@ dt_dtcmp(struct dt_dt_s d1, struct dt_dt_s d2)
 		/* always equal */
 		return -2;
 	}
+	if (d1.typ == DT_SEXY || d1.typ == DT_SEXYTAI) {
+		/* epoch values live in the pack, not in the sandwich slots */
+		const dt_ssexy_t s1 = d1.sxepoch, s2 = d2.sxepoch;
+		return s1 < s2 ? -1 : s1 > s2;
+	}
 	/* go through it hierarchically and without upmotes */
 	switch (d1.d.typ) {
 		int res;
